@@ -12,9 +12,12 @@
 (*               Results outside the exact domain are "und" (not claimed).  *)
 (*  Impl-shaped: (a) which sub-expressions ConstantFolding turns into a     *)
 (*               literal node (`folded`), (b) the C helper for double %     *)
-(*               (__Pyx_mod_double: fmod and a sign fix-up), the only place *)
-(*               where the run-time C path is not IEEE-identical to Python  *)
-(*               on this domain.  The difference is published as a hazard.  *)
+(*               (__Pyx_mod_double: fmod and a sign fix-up), (c) the C type *)
+(*               of an unfolded `&`, `|`, `^`: unary + / - / ~ of a bool    *)
+(*               literal gives IntNode.for_int, typed C `int`, and          *)
+(*               widest_numeric_type(int, bint) is its SECOND argument when *)
+(*               ranks are equal, so `int-typed ^ bint-typed` is a bint.    *)
+(*               Where these differ from the reference a hazard tag is set. *)
 (* An expression is built token by token in postfix order; every state with *)
 (* one value on the stack is a case (published for replay on compiled code).*)
 EXTENDS Integers, Sequences, FiniteSets, TLC, Json
@@ -34,8 +37,8 @@ AllCmp      == {"<", "<=", "==", "!=", ">", ">="}
 SomeChain   == {"<", "==", "!=", ">="}
 NoOps       == {}
 
-VARIABLES rpn, vals, ivals, lits
-vars == <<rpn, vals, ivals, lits>>
+VARIABLES rpn, vals, ivals, lits, cints, tags
+vars == <<rpn, vals, ivals, lits, cints, tags>>
 
 ---------------------------------------------------------------------------
 (* values *)
@@ -174,18 +177,21 @@ Top(s, i) == s[Len(s) - i]                   \* i = 0: top of stack
 Pop(s, k) == SubSeq(s, 1, Len(s) - k)
 Room == Len(rpn) < MaxTok
 
-Init == rpn = <<>> /\ vals = <<>> /\ ivals = <<>> /\ lits = <<>>
+Init == rpn = <<>> /\ vals = <<>> /\ ivals = <<>> /\ lits = <<>> /\ cints = <<>> /\ tags = {}
 
 \* a pushed operand must still be consumable by an operator within the token budget
 Push == /\ Room /\ H < 3 /\ Len(rpn) + 1 + (IF Ternary THEN (H + 1) \div 2 ELSE H) <= MaxTok
         /\ \E l \in Leaves :
              /\ rpn' = Append(rpn, Tok("leaf", l, ""))
              /\ vals' = Append(vals, LeafValue(l)) /\ ivals' = Append(ivals, LeafValue(l))
-             /\ lits' = Append(lits, TRUE)
+             /\ lits' = Append(lits, TRUE) /\ cints' = Append(cints, FALSE)
+        /\ UNCHANGED tags
 
 \* ConstantFolding.visit_UnopNode: "not", unary minus / plus of a literal, and any operator on a
 \* bool literal give a literal again; "~" of an int literal stays an operator node
 UnLit(op, x, lit) == lit /\ (op # "inv" \/ x.k = "bool")
+\* is the node typed C `int` (IntNode.for_int made from a bool literal, and operator nodes on top of it)?
+UnCInt(op, x, lit, ci) == IF op = "not" THEN FALSE ELSE (lit /\ x.k = "bool") \/ ci
 
 Unary == /\ Room /\ H >= 1
          /\ \E op \in UnOps :
@@ -194,6 +200,8 @@ Unary == /\ Room /\ H >= 1
               /\ vals' = Append(Pop(vals, 1), UnApply(op, Top(vals, 0)))
               /\ ivals' = Append(Pop(ivals, 1), UnApply(op, Top(ivals, 0)))
               /\ lits' = Append(Pop(lits, 1), UnLit(op, Top(vals, 0), Top(lits, 0)))
+              /\ cints' = Append(Pop(cints, 1), UnCInt(op, Top(vals, 0), Top(lits, 0), Top(cints, 0)))
+         /\ UNCHANGED tags
 
 \* visit_BinopNode: folded into a literal only if both operands are literals and the result is not a
 \* float; and/or: the chosen operand node is kept as it is
@@ -205,11 +213,21 @@ BinLit(op, x, y, r, lx, ly) ==
 Binary == /\ Room /\ H >= 2
           /\ \E op \in BinOps :
                LET x == Top(vals, 1) y == Top(vals, 0) ix == Top(ivals, 1) iy == Top(ivals, 0)
-                   r == BinRef(op, x, y, FMod) ir == BinRef(op, ix, iy, FModC) IN
+                   r == BinRef(op, x, y, FMod)
+                   lit == BinLit(op, x, y, r, Top(lits, 1), Top(lits, 0))
+                   plain == BinRef(op, ix, iy, FModC)
+                   \* NumBinopNode.compute_c_result_type: an unfolded bit operation `int ^ bint` is typed bint
+                   asbint == op \in {"&", "|", "^"} /\ ~lit /\ Top(cints, 1) /\ ix.k = "int" /\ iy.k = "bool" /\ plain.k = "int"
+                   ir == IF asbint THEN MkBool(plain.v # 0) ELSE plain
+                   ci == IF op = "and" THEN (IF Truthy(x) THEN Top(cints, 0) ELSE Top(cints, 1))
+                         ELSE IF op = "or" THEN (IF Truthy(x) THEN Top(cints, 1) ELSE Top(cints, 0))
+                         ELSE ~lit /\ ~asbint /\ Top(cints, 1) /\ Top(cints, 0) IN
                /\ BinDefined(op, x, y) /\ BinDefined(op, ix, iy)
                /\ rpn' = Append(rpn, Tok("bin", op, ""))
                /\ vals' = Append(Pop(vals, 2), r) /\ ivals' = Append(Pop(ivals, 2), ir)
-               /\ lits' = Append(Pop(lits, 2), BinLit(op, x, y, r, Top(lits, 1), Top(lits, 0)))
+               /\ lits' = Append(Pop(lits, 2), lit) /\ cints' = Append(Pop(cints, 2), ci)
+               /\ tags' = tags \cup (IF asbint THEN {"cint-bint-bitop"} ELSE {})
+                               \cup (IF op = "%" /\ BinRef(op, ix, iy, FMod) # plain THEN {"cdouble-mod-zero-sign"} ELSE {})
 
 Compare == /\ Room /\ H >= 2
            /\ \E op \in CmpOps :
@@ -217,7 +235,8 @@ Compare == /\ Room /\ H >= 2
                 /\ rpn' = Append(rpn, Tok("cmp", op, ""))
                 /\ vals' = Append(Pop(vals, 2), MkBool(Cmp(op, Top(vals, 1), Top(vals, 0))))
                 /\ ivals' = Append(Pop(ivals, 2), MkBool(Cmp(op, Top(ivals, 1), Top(ivals, 0))))
-                /\ lits' = Append(Pop(lits, 2), TRUE)
+                /\ lits' = Append(Pop(lits, 2), TRUE) /\ cints' = Append(Pop(cints, 2), FALSE)
+           /\ UNCHANGED tags
 
 All3Decided == /\ H >= 3 /\ \A i \in 0..2 : Decided(Top(vals, i)) /\ Decided(Top(ivals, i))
 
@@ -226,7 +245,8 @@ Chain == /\ Ternary /\ Room /\ All3Decided
               LET f(s) == MkBool(Cmp(o1, Top(s, 2), Top(s, 1)) /\ Cmp(o2, Top(s, 1), Top(s, 0))) IN
               /\ rpn' = Append(rpn, Tok("chain", o1, o2))
               /\ vals' = Append(Pop(vals, 3), f(vals)) /\ ivals' = Append(Pop(ivals, 3), f(ivals))
-              /\ lits' = Append(Pop(lits, 3), TRUE)
+              /\ lits' = Append(Pop(lits, 3), TRUE) /\ cints' = Append(Pop(cints, 3), FALSE)
+         /\ UNCHANGED tags
 
 \* x in (a, b) / x not in (a, b): identity or equality with some item
 Member == /\ Ternary /\ Room /\ All3Decided
@@ -235,7 +255,8 @@ Member == /\ Ternary /\ Room /\ All3Decided
                            IN MkBool(IF neg THEN ~hit ELSE hit) IN
                /\ rpn' = Append(rpn, Tok("in", IF neg THEN "not in" ELSE "in", ""))
                /\ vals' = Append(Pop(vals, 3), f(vals)) /\ ivals' = Append(Pop(ivals, 3), f(ivals))
-               /\ lits' = Append(Pop(lits, 3), TRUE)
+               /\ lits' = Append(Pop(lits, 3), TRUE) /\ cints' = Append(Pop(cints, 3), FALSE)
+          /\ UNCHANGED tags
 
 \* a if c else b   (stack: a c b)
 Cond == /\ Ternary /\ Room /\ All3Decided
@@ -243,6 +264,8 @@ Cond == /\ Ternary /\ Room /\ All3Decided
         /\ vals' = Append(Pop(vals, 3), IF Truthy(Top(vals, 1)) THEN Top(vals, 2) ELSE Top(vals, 0))
         /\ ivals' = Append(Pop(ivals, 3), IF Truthy(Top(ivals, 1)) THEN Top(ivals, 2) ELSE Top(ivals, 0))
         /\ lits' = Append(Pop(lits, 3), IF Truthy(Top(vals, 1)) THEN Top(lits, 2) ELSE Top(lits, 0))
+        /\ cints' = Append(Pop(cints, 3), IF Truthy(Top(vals, 1)) THEN Top(cints, 2) ELSE Top(cints, 0))
+        /\ UNCHANGED tags
 
 Next == Push \/ Unary \/ Binary \/ Compare \/ Chain \/ Member \/ Cond
 Spec == Init /\ [][Next]_vars
@@ -271,14 +294,17 @@ RefSound ==
        /\ BothInt(x, y) => /\ BAnd(x.v, y.v) + BOr(x.v, y.v) = x.v + y.v
                            /\ BXor(x.v, y.v) = BOr(x.v, y.v) - BAnd(x.v, y.v)
 
-(* the implementation-shaped evaluation differs from the reference only through the zero-sign rule of *)
-(* the C helper for double %: same kind, same magnitude                                               *)
-ImplDiffersOnlyInZeroSign ==
-  \A i \in 1..Len(vals) : LET x == vals[i] y == ivals[i] IN
-     (Decided(x) /\ Decided(y)) => (x.k = y.k /\ x.v = y.v /\ x.n = y.n /\ x.d = y.d)
+(* the implementation-shaped evaluation differs from the reference only where a hazard tag was set;   *)
+(* with the % rule alone the difference is the sign of a zero: same kind, same magnitude             *)
+ImplDiffersOnlyWhereTagged ==
+  /\ (vals # ivals) => tags # {}
+  /\ tags \subseteq {"cdouble-mod-zero-sign"} =>
+       \A i \in 1..Len(vals) : LET x == vals[i] y == ivals[i] IN
+          (Decided(x) /\ Decided(y)) => (x.k = y.k /\ x.v = y.v /\ x.n = y.n /\ x.d = y.d)
+  /\ Len(cints) = Len(vals) /\ Len(lits) = Len(vals) /\ Len(ivals) = Len(vals)
 Hazard == Case /\ vals[1] # ivals[1]
 
 Publish == (Dump /\ Case) =>
-             PrintT("@@" \o ToJson([rpn |-> rpn, val |-> vals[1], ival |-> ivals[1], folded |-> lits[1]]))
+             PrintT("@@" \o ToJson([rpn |-> rpn, val |-> vals[1], ival |-> ivals[1], folded |-> lits[1], tags |-> tags]))
 CountErr == (Dump /\ Complete /\ ~Case) => PrintT("@@" \o ToJson([skipped |-> vals[1].k]))
 =============================================================================
